@@ -126,7 +126,9 @@ func c08BtcCase(cf *CaseFile, r *Rng, w *c03World, idx int, directed int) error 
 		}
 	}
 	inValue := (outSum+int64(r.Range(150, 5000)))/int64(nin) + 1
-	w.wallet.reset(c03WalletCfg{NIn: nin, InValue: inValue, Layout: layout, DropRequest: dropped, FundFail: fundFail, BcastFail: bcastFail})
+	// every other case: one of the wallet's inputs is a nested-segwit output (the final txid differs from the unsigned one)
+	nested := r.Bool()
+	w.wallet.reset(c03WalletCfg{NIn: nin, InValue: inValue, Layout: layout, DropRequest: dropped, FundFail: fundFail, BcastFail: bcastFail, NestedInput: nested})
 	chain := onchain.NewBitcoinOnChain(&fakeEstimator{btcutil.Amount(1000), nil}, 253, 253, c03Net)
 	ad, closeAd, err := w.adapter(backend, chain)
 	if err != nil {
